@@ -69,15 +69,37 @@ def thermo_PR():
     return t[1]
 
 
+def _mixture_containers(thermo):
+    """Every mutable container that can carry state between evaluations of this package's mixture: the instance scratch
+    `_free_energy_args` and every dict that lives on the mixture's classes (e.g. the class-level `cache` of EOS objects of an EOSMixture)."""
+    m = thermo.mixture
+    out = []
+    fea = getattr(m, '_free_energy_args', None)
+    if isinstance(fea, dict): out.append(('_free_energy_args', fea))
+    for cls in type(m).__mro__:
+        if cls is object: continue
+        for k, v in vars(cls).items():
+            if isinstance(v, dict) and not k.startswith('__'): out.append((f'{cls.__name__}.{k}', v))
+    return out
+
+
 class clean_scratch:
-    """The reference twin must be a CLEAN evaluation of the concrete state, not of whatever an earlier solve left in the mixture object."""
-    def __init__(self, thermo): self.fea = getattr(thermo.mixture, '_free_energy_args', None)
+    """The reference twin must be a CLEAN evaluation of the concrete state, not of whatever earlier evaluations left in the mixture object
+    or on its classes: all owned containers are emptied for the evaluation and put back afterwards."""
+    def __init__(self, thermo): self.cs = _mixture_containers(thermo)
     def __enter__(self):
-        if self.fea is not None:
-            self.saved = dict(self.fea); self.fea.clear()
+        self.saved = [dict(d) for _, d in self.cs]
+        for _, d in self.cs: d.clear()
     def __exit__(self, *a):
-        if self.fea is not None:
-            self.fea.clear(); self.fea.update(self.saved)
+        for (_, d), old in zip(self.cs, self.saved):
+            d.clear(); d.update(old)
+
+
+def _key_digest(k):
+    if isinstance(k, (tuple, list, frozenset, set)):
+        items = [_key_digest(i) for i in k]
+        return tuple(sorted(items, key=repr)) if isinstance(k, (frozenset, set)) else tuple(items)
+    return getattr(k, 'ID', None) or (k if isinstance(k, (str, int, float, bool, type(None))) else type(k).__name__)
 
 
 def _fea_digest(thermo):
@@ -205,8 +227,7 @@ class C14(System):
         st.last = None
         st.PA, st.PB = 101325.0, 5e5
         for th in (thermo_PR(),):
-            fea = getattr(th.mixture, '_free_energy_args', None)
-            if fea is not None: fea.clear()
+            for _, d in _mixture_containers(th): d.clear()
         if kind == 'l':
             st.TA, st.TB = 298.15, 350.0
             s = tmo.Stream(None, Water=1.0, Ethanol=2.5, phase='l', T=st.TA, thermo=A)
@@ -249,7 +270,7 @@ class C14(System):
             st.k.link_with(s)
         elif extra == 'view':
             st.v = s['l'] if kind == 'm1' else s['g']      # a view of a non-empty phase; gas, where the mixture models differ most
-        if warm and st.v is not None: st.v.H
+        if warm and st.v is not None: st.v.vol.sum(); st.v.H
         return st
 
     def _new_k(self, st):
@@ -273,6 +294,7 @@ class C14(System):
                 views = tuple((ph, alias(vw), alias(vw._imol.data), _memo_digest(vw, alias)) for ph, vw in sorted(x._streams.items()))
             out.append((d, _memo_digest(x, alias), views, alias(x._thermo)))
         out.append(_fea_digest(thermo_PR()))
+        out.append(tuple((n, tuple(sorted((repr(_key_digest(k)) for k in d)))) for n, d in _mixture_containers(thermo_PR()) if n != '_free_energy_args'))
         return tuple(out)
 
     # ---- actions ---------------------------------------------------------------------------------------------
@@ -326,6 +348,7 @@ class C14(System):
         acts += [('P', 's', st.PB), ('P', 's', st.PA)]
         acts.append(('addmol', 1.0))
         if st.cfg[0] in ('gX', 'gP') and not multi:
+            acts += [('reorder', 'Water'), ('reorder', 'Ethanol')]      # zero a flow and set it again: same flows, other order of the flow dict
             acts += [('setS', 'A'), ('setS', 'B')]        # entropy specification: S := the clean entropy of this composition at TA / TB
         if not multi and s.phase != st.aux.phase and s.chemicals is st.aux.chemicals and st.aux._thermal_condition is not s._thermal_condition:
             acts.append(('from_streams',))               # MultiStream.from_streams([aux, s]) re-points s to aux's thermal condition
@@ -340,10 +363,12 @@ class C14(System):
             acts.append(('reset_thermo', 'X'))      # same chemicals, other mixture model
         if st.c is None and s._thermo is st.thermos[0]:
             acts += [('mkcopy', None), ('mkcopy', 'X')]     # a proxy keeps its own `_thermo`: package reset of the original with a live proxy is outside the property
-        if multi: acts.append(('to_single', 'l'))
+        if multi:
+            acts.append(('to_single', 'l'))
+            if tuple(s._imol._phases) == ('g', 'l'): acts.append(('phases', 'gls'))      # phase-set change that keeps the stream multi-phase
         else: acts.append(('phases', 'gl'))
         if st.p is None and s._thermo is st.thermos[0]: acts.append(('mkproxy',))
-        if st.k is None: acts += [('mklink', True, True, True), ('mklink', True, True, False), ('mklink', False, True, True)]
+        if st.k is None: acts += [('mklink', True, True, True), ('mklink', True, True, False), ('mklink', False, True, True), ('mklink', True, False, True)]
         else: acts += [('unlink', 's'), ('unlink', 'k')]
         if st.v is None and multi and hasattr(s, '_streams'):
             for ph in ('l', 'g'):
@@ -492,6 +517,11 @@ class C14(System):
             s.imol['l', IDs] = gs
             s.imol['g', IDs] = lq
             return 'ok'
+        if op == 'reorder':
+            v = float(s.imol[a[1]])
+            s.imol[a[1]] = 0.
+            if v: s.imol[a[1]] = v
+            return 'ok'
         if op == 'setS':
             T = st.TA if a[1] == 'A' else st.TB
             with clean_scratch(s._thermo):
@@ -566,10 +596,11 @@ _CORE = (('l', 'none', False), ('l1', 'none', False), ('g', 'none', False), ('gX
 _DEEP = (('l', 'none', False), ('l1', 'none', False), ('l', 'proxy', False), ('l', 'link', False), ('m', 'none', False), ('m', 'proxy', False),
          ('m', 'link', False), ('m', 'view', False), ('m1', 'none', False), ('m1', 'view', False))
 SYSTEMS = [
-    # every mutator x every read (x every satellite) from all cold and warm starts
+    # every mutator x every read (x every satellite) from all cold and warm starts; the thorough tier runs depth 3 from ALL starts, which
+    # contains the quick space of c14.full below
     C14('c14.wide', 'full', 2, 3, ('l', 'l1', 'g', 'gX', 'gP', 'm', 'mc', 'm1'), ('none', 'proxy', 'link', 'view'), tcap_t=900),
-    # the same alphabet, one level deeper, from the core starts (satellites can also be created by actions)
-    C14('c14.full', 'full', 3, 4, ('l', 'l1', 'g', 'gX', 'gP', 'm', 'mc', 'm1'), ('none', 'proxy', 'link', 'view'), only=_CORE, tcap_q=150, tcap_t=900),
+    # quick: the same alphabet one level deeper from the core starts (in the thorough tier this space is part of c14.wide, so only depth 2 is repeated)
+    C14('c14.full', 'full', 3, 2, ('l', 'l1', 'g', 'gX', 'gP', 'm', 'mc', 'm1'), ('none', 'proxy', 'link', 'view'), only=_CORE, tcap_q=150),
     # reduced alphabet (restoring mutations, whole-phase moves, reads through every object), deep histories
-    C14('c14.deep', 'deep', 4, 7, ('l', 'l1', 'm', 'm1'), ('none', 'proxy', 'link', 'view'), warm=(False,), only=_DEEP, tcap_q=120, tcap_t=600),
+    C14('c14.deep', 'deep', 4, 5, ('l', 'l1', 'm', 'm1'), ('none', 'proxy', 'link', 'view'), warm=(False,), only=_DEEP, tcap_q=120, tcap_t=600),
 ]
